@@ -341,6 +341,28 @@ func c17BuildDeregister(w *World, op TxOp, v TxView, _ signature.Signer, fee *tr
 	ss := c17SessionFor(w)
 	rr := c17Rand(op)
 	target := ss.ents[rr.Intn(len(ss.ents))]
+	if rr.Chance(1, 2) {
+		// Prefer an entity that owns a runtime but no nodes (the runtime rule alone must then refuse).
+		st := registryState.NewImmutableState(v.Tree())
+		ctx := context.Background()
+		if rts, err := st.AllRuntimes(ctx); err == nil {
+			owners := map[signature.PublicKey]bool{}
+			for _, rt := range rts {
+				owners[rt.EntityID] = true
+			}
+			var cands []signature.Signer
+			for _, e := range ss.ents {
+				if owners[e.Public()] {
+					if has, err := st.HasEntityNodes(ctx, e.Public()); err == nil && !has {
+						cands = append(cands, e)
+					}
+				}
+			}
+			if len(cands) > 0 {
+				target = cands[rr.Intn(len(cands))]
+			}
+		}
+	}
 	return ss.finish(v, op, target, fee, registry.MethodDeregisterEntity, nil, &c17Intent{Kind: "dereg", Target: ss.nameOf(target.Public())})
 }
 
